@@ -372,7 +372,10 @@ def _sequence(osy, rng, res, i):
     vlim = 2.0 * osy.units("K")
     lay_vx = dg.layer("velocity").x
     lay_vc = dg.layer("velocity", mode="vec", color=dg["temp"])
-    objs = {"edges": edges, "xc": xc, "xb": xb, "yb": yb, "size_arr": size_arr, "vlim": vlim, "lay_vx": lay_vx, "lay_vc": lay_vc,
+    lay_s0 = Layer(sinks, mode="scatter")
+    lay_s1 = Layer(sinks, mode="scatter", s=20.0, c="red")
+    size_plain = osy.Array(values=rng.uniform(1, 30, n), name="sz0")
+    objs = {"lay_s0": lay_s0, "lay_s1": lay_s1, "size_plain": size_plain, "edges": edges, "xc": xc, "xb": xb, "yb": yb, "size_arr": size_arr, "vlim": vlim, "lay_vx": lay_vx, "lay_vc": lay_vc,
             "dg": dg, "res": shared_res, "origin": origin, "lay_t": lay_t, "lay_v": lay_v, "xa": xa, "ya": ya, "wa": wa,
             "hl": hl, "lim": lim, "lay_s": lay_s, "sinks": sinks}
     calls = {
@@ -405,6 +408,12 @@ def _sequence(osy, rng, res, i):
         "map-component": lambda: osy.map(lay_vx, lay_t, direction="z", dx=0.7 * osy.units("au"), origin=origin, resolution=shared_res,
                                          plot=False),
         "map-vec-colour": lambda: osy.map(lay_vc, direction="z", dx=0.9 * osy.units("au"), origin=origin, resolution=16, plot=False),
+        "map-scatter-overlay-plain": lambda: osy.map(lay_t, lay_s0, direction="z", dx=0.7 * osy.units("au"), origin=origin, resolution=24,
+                                                     plot=True),
+        "map-scatter-overlay-float-size": lambda: osy.map(lay_t, lay_s1, direction="z", dx=0.7 * osy.units("au"), origin=origin,
+                                                          resolution=24, plot=True),
+        "scatter-limits": lambda: osy.scatter(xa, ya, xmin=2.0, xmax=8.0, ymin=1.5, ymax=9.0),
+        "scatter-dimensionless-size": lambda: osy.scatter(xa, xc, size=size_plain),
         "map-symlog-plot": lambda: osy.map(dg.layer("temp", norm="symlog", cbar=False), direction="z", dx=0.7 * osy.units("au"),
                                            origin=origin, resolution=shared_res, plot=True),
     }
